@@ -4,7 +4,11 @@
  * result object it is handed or allocates one with the REAL alloc_kmeans_result, puts half of the samples on each side and
  * gives it an ARBITRARY finite score - so every order of "better / not better" over the up to 40 restarts is explored.
  * assert (with --memory-leak-check): the call succeeds, returns a tree, and after the tree is released nothing the driver
- * allocated remains (the superseded best results, the spare results, the sample lists). */
+ * allocated remains (the superseded best results, the spare results, the sample lists).
+ * VK_ROUNDS (optional): runs that would enter round VK_ROUNDS+1 of restarts are cut (assume(0) in the stand-in, on a
+ * concrete call counter), i.e. only runs whose keep-the-best loop stops after <= VK_ROUNDS rounds are decided.  The full
+ * instance decides the unchanged code in seconds; on code that leaks a result per improving restart symex of all 10
+ * rounds does not finish, the cut instance does (seeded C16_r4m4). */
 #include "vk.h"
 #include "tldevel.h"
 #include <stdlib.h>
@@ -16,6 +20,9 @@ int vk_split2(const float * const *dm, const int *samples, const int num_anchors
 {
         (void)dm; (void)samples; (void)num_anchors; (void)seed_pick;
         struct kmeans_result *r = *ret;
+#ifdef VK_ROUNDS
+        if (nf >= 4 * VK_ROUNDS) __CPROVER_assume(0);
+#endif
         if (!r) { r = alloc_kmeans_result(num_samples); __CPROVER_assume(r != NULL); }
         r->nl = num_samples / 2; r->nr = num_samples - r->nl;
         float sc = vin.f[nf < VK_NF ? nf : 0]; nf++;
